@@ -19,8 +19,8 @@ WORKERS = {"quick": 4, "thorough": 16}
 WTESTS = {"groups": ['descriptor_format'], "tests": ['tests/utils', 'tests/decay']}
 REQUIRED = {"nesting-depth>=3": 50, "reused-object-sequentially": 50, "reentrant-object": 50, "object-created-before-set_config": 50,
             "leave-by-exception-at-depth>=2": 50, "enter-invalid-context": 50, "render": 500,
-            "valid-pattern-with-repeated-placeholder": 20,
-            **{f"invalid:{k}": 20 for k in ("missing-mother", "missing-daughters", "extra-named", "positional", "attribute", "index", "nested-in-spec", "second-only", "repeated-mother-no-daughters", "repeated-daughters-no-mother", "repeat-inside-spec-no-daughters", "blank-in-name", "blank-in-name-second", "tab-in-name")},
+            "valid-pattern-with-repeated-placeholder": 20, "render:parser-descriptors": 100,
+            **{f"invalid:{k}": 20 for k in ("missing-mother", "missing-daughters", "extra-named", "positional", "attribute", "index", "nested-in-spec", "second-only", "repeated-mother-no-daughters", "repeated-daughters-no-mother", "repeat-inside-spec-no-daughters", "blank-in-name", "blank-in-name-second", "tab-in-name", "empty-second", "empty-first")},
             "C14.exit.restores_entry_format": 500, "C14.set_config.rejected_leaves_format": 500}
 EXHAUSTIVE_NOTE = "every well-nested history over the reduced alphabet {N,E,F,L,X,V,I,B,R} of length exactly L (7 quick, 8 thorough) -- all shorter ones are prefixes"
 ASSUMPTIONS = ["only with-shaped (well-nested) enter/leave sequences, as `with` can produce", "process-wide format is reset to the default between histories"]
@@ -51,6 +51,9 @@ INVALID = {
     "blank-in-name": ("{mother } -> {daughters}", DEFAULT[1]),
     "blank-in-name-second": (DEFAULT[0], "[{mother} -> { daughters}]"),
     "tab-in-name": ("{mother} -> {daughters\t}", DEFAULT[1]),
+    # the empty string lacks both placeholders
+    "empty-second": (DEFAULT[0], ""),
+    "empty-first": ("", DEFAULT[1]),
 }
 INV_KEYS = list(INVALID)
 
@@ -76,6 +79,11 @@ class Exec:
         self.ctx = ctx
         self.DF = DescriptorFormat
         self.chain = DecayChain("D0", {"D0": DecayMode(0.5, "K_S0"), "K_S0": DecayMode(0.5, "pi+ pi-")})
+        # a parser object kept for the whole run: its descriptors are renderings too
+        from decaylanguage import DecFileParser  # noqa: PLC0415
+
+        self.parser = DecFileParser.from_string("Decay D0\n1.0 K_S0 pi0 PHSP;\nEnddecay\nDecay K_S0\n1.0 pi+ pi- PHSP;\nEnddecay\n")
+        self.parser.parse()
         self.last_hist = []
 
     def restore_default(self, when):
@@ -159,6 +167,13 @@ class Exec:
             exp = m.cur[0].format(mother="D0", daughters=m.cur[1].format(mother="K_S0", daughters="pi+ pi-"))
             if s != exp:
                 self.fail("render:not-current-format", f"rendered {s!r}, format in force gives {exp!r}", hist, i)
+            if i % 2 == 0:
+                self.ctx.hit("render:parser-descriptors")
+                got = self.parser.expand_decay_modes("D0")
+                # (daughters of a descriptor are listed in the sorted order of their rendered strings, so the bracket characters decide the order)
+                exp2 = [m.cur[0].format(mother="D0", daughters=" ".join(sorted([m.cur[1].format(mother="K_S0", daughters="pi+ pi-"), "pi0"])))]
+                if got != exp2:
+                    self.fail("render:parser-descriptors-not-in-current-format", f"expand_decay_modes gives {got!r}, format in force gives {exp2!r}", hist, i)
         got = (DF.config.get("decay_pattern"), DF.config.get("sub_decay_pattern"))
         if got != m.cur:
             self.fail("format:differs-from-stack-model:after-" + k, f"after step {i} {op}: format {got!r}, model says {m.cur!r}", hist, i)
